@@ -35,7 +35,7 @@ func run(c *vf.Ctx) {
 	}
 	c.Rule("credentials: choice tree over version {2,1,0} x modulus length {256,1,128,512} x exponent {65537,3,2^32-1} x prime lengths {(0,0),(64,64),(128,128),(64,0),(0,128)} x 10 device GUIDs x 10 tick values each for last-logon and creation (never 0) x 9 usages x 4 sources x 9 CUSTOM_KEY_INFORMATION values (the constructor's and one per legal truncation point 2,3,4,5,9,19,20,32 bytes), " +
 		"explored with mc/explore to 2 (thorough 3) deviations from the default, plus the full product of the four key-shape parameters; identifier = the version's own encoding of SHA-256(key material). " +
-		"Faults: for every blob, every single-bit flip (exhaustive per blob); flips after the KeyHash entry are the obligation. DN-Binary: all strings of length <=4 (thorough 5) over {a = , : space é % \\} and realistic DNs x binary lengths {0,1,2,3,255,256}. " +
+		"Faults: for every blob, every single-bit flip (exhaustive per blob); flips after the KeyHash entry are the obligation. DN-Binary: all strings of length <=4 (thorough 5) over {a = , : space é % \\}, DNs containing LF/CR/TAB/NUL/CRLF/U+2028 and realistic DNs x binary lengths {0,1,2,3,255,256}. " +
 		"distinct = distinct serialised blobs / DN-Binary inputs reaching the comparison; flips are counted in tampered_blobs")
 	c.Assume("crypto/sha256 is correct; the blob layout is MS-ADTS 2.2.20 (version LE32, entries len16/type8/value; KeyID = SHA-256 of the KeyMaterial value, KeyHash = SHA-256 of all bytes after the KeyHash entry); no published blob is available offline, the reader is self-tested on a hand-assembled one")
 	c.Assume("usage/source/custom key information other than the constructor's defaults are set through the exported fields (CustomKeyInfo.FromBytes for the latter) followed by ComputeKeyHash (the constructor has no parameters for them); identifiers of other lengths than a SHA-256 are not enumerated; NewDateTime(0) (= now) is excluded")
@@ -452,6 +452,10 @@ func creds(c *vf.Ctx) {
 
 func dnBinary(c *vf.Ctx) {
 	dns := enum.Strings([]string{"a", "=", ",", ":", " ", "é", "%", "\\"}, c.Pick(4, 5)) // incl. the printf verb and escape characters
+	// control characters and line ends anywhere in the DN (a pattern's '.' and '$' treat a line feed specially)
+	for _, ch := range []string{"\n", "\r", "\t", "\x00", "\r\n", "\u2028"} {
+		dns = append(dns, ch, "CN=a"+ch, ch+"CN=a", "CN=a"+ch+",DC=x", "CN=a,DC=x"+ch+ch)
+	}
 	realistic := []string{
 		"CN=John Doe,OU=Users,DC=example,DC=com",
 		"CN=svc:backup,OU=Service Accounts,DC=corp,DC=example,DC=com",
